@@ -1036,8 +1036,10 @@ VF_PART(popsim)
 // exactly the nodes of the grid, both paths draw the same directions, the same band seeds and the same 1-D processes:
 // the two fields must be EQUAL up to round-off.  Together with the population statistics on point supports (popsim tb:*,
 // microsim) this decides the grid support for every structure type without a second sweep of the seed space.
-// Enumerated: every structure type / parameter branch x {single, nested behind a spherical structure} x 4 grids (square,
-// anisotropic mesh with an offset origin, rotated, 1-D-like 4x1... see menu) x nbtuba {1, 6} x 4 seeds.
+// Enumerated: every structure type / parameter branch x {single, nested behind a spherical structure} x 4 grids (4x3,
+// anisotropic mesh with an offset origin, rotated 3x3, 3-D 3x2x2) x nbtuba {1, 6} x 4 seeds x 5 SELECTIONS on the grid (none, a hole
+// in every row, first node of every row, checkerboard, a whole row): the ACTIVE nodes of the masked grid must equal (i) the same
+// nodes simulated as points and (ii) the same grid simulated without selection (a masked target must not change the others).
 struct GvpType { ECov type; double param; const char* name; };
 static std::vector<GvpType> gvp_types()
 {
@@ -1048,27 +1050,31 @@ static std::vector<GvpType> gvp_types()
           {ECov::ORDER3_GC, 1., "ORDER3_GC"}, {ECov::ORDER5_GC, 1., "ORDER5_GC"}, {ECov::NUGGET, 1., "NUGGET"}};
 }
 
+static const char* gvp_maskname[5] = {"no selection", "hole: node ix=1 of every row masked", "first node of every row masked", "checkerboard", "whole row iy=0 masked"};
+
 VF_PART(tb_grid_vs_points)
 {
   std::vector<GvpType> TT = gvp_types();
   Space sp;
-  sp.axis("type", (int)TT.size()).axis("nested", 2).axis("grid", 4).axis("nbtuba", 2).axis("seed", 4).axis("aniso", 2);
+  sp.axis("type", (int)TT.size()).axis("nested", 2).axis("grid", 4).axis("nbtuba", 2).axis("seed", 4).axis("aniso", 2).axis("mask", 5);
   const int seeds[4] = {12345, 1, 20000158, 777};
   for_each_case(C, sp, [&](uint64_t id, const std::vector<int>& ix) {
-    if (!C.thorough() && (ix[4] >= 2)) return;  // quick: 2 seeds
+    if (!C.thorough() && (ix[4] >= 2 || (ix[6] > 0 && ix[4] >= 1))) return;  // quick: 2 seeds without selection, 1 seed per selection
     const GvpType& T = TT[ix[0]];
     bool nested = ix[1] == 1, aniso = ix[5] == 1;
-    int nbtuba = ix[3] == 0 ? 6 : 1, seed = seeds[ix[4]];
+    int nbtuba = ix[3] == 0 ? 6 : 1, seed = seeds[ix[4]], mask = ix[6];
     int ndim = ix[2] == 3 ? 3 : 2;
     defineDefaultSpace(ESpaceType::RN, ndim);
-    DbGrid* g;
-    switch (ix[2])
-    {
-      case 0: g = DbGrid::create({2, 2}); break;
-      case 1: g = DbGrid::create({3, 2}, {0.5, 2.}, {10., -3.}); break;
-      case 2: g = DbGrid::create({2, 3}, {1., 0.75}, {1., 2.}, {30., 0.}); break;
-      default: g = DbGrid::create({2, 2, 2}, {1., 0.5, 2.}, {0., 1., -1.}); break;
-    }
+    auto mkgrid = [&]() -> DbGrid* {
+      switch (ix[2])
+      {
+        case 0: return DbGrid::create({4, 3});
+        case 1: return DbGrid::create({3, 2}, {0.5, 2.}, {10., -3.});
+        case 2: return DbGrid::create({3, 3}, {1., 0.75}, {1., 2.}, {30., 0.});
+        default: return DbGrid::create({3, 2, 2}, {1., 0.5, 2.}, {0., 1., -1.});
+      }
+    };
+    DbGrid* g = mkgrid();
     VectorDouble ranges = ndim == 2 ? VectorDouble{3., 1.5} : VectorDouble{3., 1.5, 2.};
     VectorDouble angles = ndim == 2 ? VectorDouble{20., 0.} : VectorDouble{20., 0., 0.};
     Model* m;
@@ -1076,45 +1082,83 @@ VF_PART(tb_grid_vs_points)
     if (!nested) m = aniso ? Model::createFromParam(T.type, 1., 1.25, T.param, ranges, VectorDouble(), angles) : Model::createFromParam(T.type, 2., 1.25, T.param);
     else { m = Model::createFromParam(ECov::SPHERICAL, 3., 0.5); if (m != nullptr) addT(m); }
     std::string kase = std::to_string(id);
-    std::string desc = std::string(nested ? "SPHERICAL + " : "") + T.name + (aniso ? " (anisotropic, rotated)" : " (range 2)") + ", grid menu " + std::to_string(ix[2]) + " (" + std::to_string(g->getSampleNumber()) + " nodes), nbtuba=" + std::to_string(nbtuba) + ", seed=" + std::to_string(seed);
+    std::string desc = std::string(nested ? "SPHERICAL + " : "") + T.name + (aniso ? " (anisotropic, rotated)" : " (range 2)") + ", grid menu " + std::to_string(ix[2]) + " (" + std::to_string(g->getSampleNumber()) + " nodes), " + gvp_maskname[mask] +
+                       ", nbtuba=" + std::to_string(nbtuba) + ", seed=" + std::to_string(seed);
     if (m == nullptr) { C.skip(); C.outcome("model-refused"); delete g; return; }
-    // point Db with the coordinates of the grid nodes
+    // the nugget component draws one Gaussian per ACTIVE node in node order: with a selection the values of the other nodes
+    // legitimately change; nothing in the property forbids it -> excluded and counted
+    if (mask > 0 && T.type == ECov::NUGGET) { C.skip(); C.outcome("excluded:nugget-with-selection(draws follow the active nodes)"); delete g; delete m; return; }
+    // the IRF structures (linear, order-k GC) are simulated by integrating a Wiener-Levy process on Poisson points whose
+    // density (_setDensity) is derived from the NUMBER OF ACTIVE samples (measured: theta 7.79 with 12 active nodes, 7.14 with
+    // 11): with a selection the discretisation, hence the realisation, legitimately differs -> excluded and counted
+    if (mask > 0 && (T.type == ECov::LINEAR || T.type == ECov::ORDER1_GC || T.type == ECov::ORDER3_GC || T.type == ECov::ORDER5_GC))
+    { C.skip(); C.outcome("excluded:IRF-process-with-selection(Poisson density follows the number of active nodes)"); delete g; delete m; return; }
     int nn = g->getSampleNumber();
+    // active flags of the selection
+    std::vector<double> sel(nn, 1.);
+    VectorInt ind(ndim);
+    int nactive = nn;
+    if (mask > 0)
+    {
+      nactive = 0;
+      for (int i = 0; i < nn; i++)
+      {
+        g->rankToIndice(i, ind);
+        int sum = 0;
+        for (int d = 0; d < ndim; d++) sum += ind[d];
+        bool off = mask == 1 ? ind[0] == 1 : mask == 2 ? ind[0] == 0 : mask == 3 ? (sum % 2 == 1) : ind[1] == 0;
+        sel[i] = off ? 0. : 1.;
+        if (!off) nactive++;
+      }
+    }
+    // point Db with the coordinates of ALL the grid nodes, no selection (same extension of the bands as the grid, whose
+    // extension is taken from its corners whatever the selection)
     std::vector<std::vector<double>> cols(ndim);
     std::vector<std::string> nm, lc;
     for (int d = 0; d < ndim; d++) { for (int i = 0; i < nn; i++) cols[d].push_back(g->getCoordinate(i, d)); nm.push_back("x" + std::to_string(d + 1)); lc.push_back("x" + std::to_string(d + 1)); }
     Db* p = make_db(cols, nm, lc);
-    int ng0 = g->getColumnNumber(), np0 = p->getColumnNumber();
+    DbGrid* gm = nullptr;
+    if (mask > 0) { gm = mkgrid(); gm->addColumns(VectorDouble(sel.begin(), sel.end()), "sel", ELoc::SEL); }
+    int ng0 = g->getColumnNumber(), np0 = p->getColumnNumber(), nm0 = gm ? gm->getColumnNumber() : 0;
     int eg = simtub(nullptr, g, m, nullptr, 2, seed, nbtuba);
     int ep = simtub(nullptr, p, m, nullptr, 2, seed, nbtuba);
+    int em = gm ? simtub(nullptr, gm, m, nullptr, 2, seed, nbtuba) : eg;
     C.eval();
-    if (eg != ep || (eg == 0 && (g->getColumnNumber() != ng0 + 2 || p->getColumnNumber() != np0 + 2)))
+    if (eg != ep || em != eg || (eg == 0 && (g->getColumnNumber() != ng0 + 2 || p->getColumnNumber() != np0 + 2 || (gm && gm->getColumnNumber() != nm0 + 2))))
     {
       C.outcome("error-codes-differ");
-      C.violation(std::string("tb:grid-vs-points:") + T.name + ":error", desc + ": simtub returns " + std::to_string(eg) + " on the grid and " + std::to_string(ep) + " on the same nodes given as points", kase);
+      C.violation(std::string("tb:grid-vs-points:") + T.name + ":error", desc + ": simtub returns " + std::to_string(eg) + " on the grid, " + std::to_string(em) + " on the grid with the selection and " + std::to_string(ep) + " on the same nodes given as points", kase);
     }
-    else if (eg != 0) { C.skip(); C.outcome(std::string("both-refused:") + T.name); }
+    else if (eg != 0) { C.skip(); C.outcome(std::string("all-refused:") + T.name); }
     else
     {
-      double scale = 0., worst = 0.;
-      int wi = 0, ws = 0;
+      // subject = the grid run (with its selection when there is one); references = points, and the unmasked grid
+      DbGrid* subj = gm ? gm : g;
+      int ns0 = gm ? nm0 : ng0;
+      double scale = 0., worstP = 0., worstG = 0.;
+      int wiP = 0, wsP = 0, wiG = 0, wsG = 0;
       for (int s2 = 0; s2 < 2; s2++)
         for (int i = 0; i < nn; i++)
         {
-          double a = g->getValueByColIdx(i, ng0 + s2), b = p->getValueByColIdx(i, np0 + s2);
-          scale = std::max({scale, std::fabs(a), std::fabs(b)});
-          double d = std::fabs(a - b);
-          if (!(d <= worst)) { worst = d; wi = i; ws = s2; }
+          if (sel[i] == 0.) continue;  // masked targets are not judged
+          double a = subj->getValueByColIdx(i, ns0 + s2), b = p->getValueByColIdx(i, np0 + s2), c = g->getValueByColIdx(i, ng0 + s2);
+          scale = std::max({scale, std::fabs(a), std::fabs(b), std::fabs(c)});
+          double d1 = std::fabs(a - b), d2 = std::fabs(a - c);
+          if (!(d1 <= worstP)) { worstP = d1; wiP = i; wsP = s2; }
+          if (!(d2 <= worstG)) { worstG = d2; wiG = i; wsG = s2; }
         }
-      bool finite = std::isfinite(scale) && std::isfinite(worst);
-      bool ok = finite && worst <= 1e-9 * std::max(1., scale);
-      if (T.type != ECov::NUGGET || nested) C.nontrivial(id);
-      C.outcome(std::string(ok ? "equal(1e-9):" : "DIFFERENT:") + T.name);
-      if (!ok)
-        C.violation(std::string("tb:grid-vs-points:") + T.name, desc + ": node " + std::to_string(wi) + ", simulation " + std::to_string(ws + 1) + ": grid support gives " + fmt(g->getValueByColIdx(wi, ng0 + ws)) + ", the same location as a point gives " + fmt(p->getValueByColIdx(wi, np0 + ws)), kase);
-      if (id % 211 == 0) C.sample("{\"id\":" + kase + ",\"case\":" + jstr(desc) + ",\"max_abs_diff\":" + f6(worst) + "}");
+      bool finite = std::isfinite(scale) && std::isfinite(worstP) && std::isfinite(worstG);
+      double tol = 1e-9 * std::max(1., scale);
+      bool okP = finite && worstP <= tol, okG = finite && worstG <= tol;
+      if ((T.type != ECov::NUGGET || nested) && nactive > 0) C.nontrivial(id);
+      C.outcome(std::string(okP && okG ? "equal(1e-9):" : "DIFFERENT:") + T.name + (mask ? ":selection" : ""));
+      if (!okP)
+        C.violation(std::string("tb:grid-vs-points:") + T.name + (mask ? ":selection" : ""), desc + ": node " + std::to_string(wiP) + ", simulation " + std::to_string(wsP + 1) + ": grid support gives " + fmt(subj->getValueByColIdx(wiP, ns0 + wsP)) + ", the same location as a point gives " + fmt(p->getValueByColIdx(wiP, np0 + wsP)), kase);
+      if (!okG)
+        C.violation(std::string("tb:grid-masked-vs-unmasked:") + T.name, desc + ": active node " + std::to_string(wiG) + ", simulation " + std::to_string(wsG + 1) + ": " + fmt(subj->getValueByColIdx(wiG, ns0 + wsG)) + " with the selection, " + fmt(g->getValueByColIdx(wiG, ng0 + wsG)) + " on the same grid without selection (same seed)", kase);
+      if (id % 211 == 0) C.sample("{\"id\":" + kase + ",\"case\":" + jstr(desc) + ",\"active_nodes\":" + std::to_string(nactive) + ",\"max_abs_diff_vs_points\":" + f6(worstP) + ",\"max_abs_diff_vs_unmasked\":" + f6(worstG) + "}");
     }
-    delete g; delete p; delete m;
+    delete g; delete p; delete m; delete gm;
   });
 }
 
